@@ -105,8 +105,7 @@ package swagen30
 //@ ensures result != nil && fresh(result) && result.Value != nil && fresh(result.Value)
 //@ ensures result.Value.Required == swagtool.IsFieldRequired(param.Validator) && result.Value.Description == param.Description && result.Value.Content != nil
 
-//@ rec countRouteParams(r definitions.RouteMetadata, n int) int = ite(n <= 0, 0, countRouteParams(r, n-1) + ite(isRouteParam(r.FuncParams[n-1]), 1, 0))
-//@ spec isRouteParam(p definitions.FuncParam) bool = !p.IsContext && p.PassedIn != definitions.PassedInBody && p.PassedIn != definitions.PassedInForm
+// (isRouteParam / countRouteParams: shared with the 3.1 emitter, see swagtool)
 //@ spec documents(sp *openapi3.ParameterRef, p definitions.FuncParam) bool = sp != nil && sp.Value != nil && sp.Value.Name == p.NameInSchema && sp.Value.In == strings.ToLower(string(p.PassedIn)) && sp.Value.Required == swagtool.IsFieldRequired(p.Validator)
 
 // parameters == the method's path/query/header parameters, in signature order; context parameters never appear;
@@ -115,12 +114,12 @@ package swagen30
 //@ requires operation != nil && len(operation.Parameters) == 0 && fresh(operation.Parameters) && operation.RequestBody == nil
 //@ requires forall(i, 0, len(route.FuncParams), forall(j, 0, len(route.FuncParams), !(!route.FuncParams[i].IsContext && !route.FuncParams[j].IsContext && route.FuncParams[i].PassedIn == definitions.PassedInBody && route.FuncParams[j].PassedIn == definitions.PassedInForm)))
 //@ modifies operation.Parameters, operation.RequestBody, any(elems(operation.Parameters)), any(openapi3.Schema.Format), any(openapi3.Schema.Min), any(openapi3.Schema.Max), any(openapi3.Schema.ExclusiveMin), any(openapi3.Schema.ExclusiveMax), any(openapi3.Schema.MinLength), any(openapi3.Schema.MaxLength), any(openapi3.Schema.Pattern), any(openapi3.Schema.MinItems), any(openapi3.Schema.MaxItems), any(openapi3.Schema.UniqueItems), any(openapi3.Schema.Enum), any(openapi3.Schema.Description), any(openapi3.Schema.Required), any(SchemaRefMap), any(elems(schemaRefMap)), any(elems([]any)), any(openapi3.RequestBody), any(openapi3.RequestBodyRef), any(elems(openapi3.Content)), any(elems(openapi3.Schemas)), any(elems([]string))
-//@ ensures count: len(operation.Parameters) == countRouteParams(route, len(route.FuncParams))
-//@ ensures order: forall(k, 0, len(route.FuncParams), implies(isRouteParam(route.FuncParams[k]), documents(operation.Parameters[countRouteParams(route, k)], route.FuncParams[k])))
-//@ loop 0 invariant 0 <= _n && _n <= len(route.FuncParams) && len(operation.Parameters) == countRouteParams(route, _n) && (fresh(operation.Parameters) || true)
+//@ ensures count: len(operation.Parameters) == swagtool.countRouteParams(route, len(route.FuncParams))
+//@ ensures order: forall(k, 0, len(route.FuncParams), implies(swagtool.isRouteParam(route.FuncParams[k]), documents(operation.Parameters[swagtool.countRouteParams(route, k)], route.FuncParams[k])))
+//@ loop 0 invariant 0 <= _n && _n <= len(route.FuncParams) && len(operation.Parameters) == swagtool.countRouteParams(route, _n) && (fresh(operation.Parameters) || true)
 //@ loop 0 invariant implies(forall(k, 0, _n, !(!route.FuncParams[k].IsContext && route.FuncParams[k].PassedIn == definitions.PassedInBody)), operation.RequestBody == nil || formShaped(operation.RequestBody))
-//@ loop 0 invariant forall(k, 0, _n, 0 <= countRouteParams(route, k) && countRouteParams(route, k) <= countRouteParams(route, _n))
-//@ loop 0 invariant forall(k, 0, _n, implies(isRouteParam(route.FuncParams[k]), countRouteParams(route, k) < countRouteParams(route, _n) && documents(operation.Parameters[countRouteParams(route, k)], route.FuncParams[k])))
+//@ loop 0 invariant forall(k, 0, _n, 0 <= swagtool.countRouteParams(route, k) && swagtool.countRouteParams(route, k) <= swagtool.countRouteParams(route, _n))
+//@ loop 0 invariant forall(k, 0, _n, implies(swagtool.isRouteParam(route.FuncParams[k]), swagtool.countRouteParams(route, k) < swagtool.countRouteParams(route, _n) && documents(operation.Parameters[swagtool.countRouteParams(route, k)], route.FuncParams[k])))
 
 //@ func ToOpenApiSchemaRef trusted
 //@ ensures result != nil && fresh(result) && result.Value != nil && fresh(result.Value) && result.Ref == ""
